@@ -36,6 +36,13 @@ def sharedInit : List SharedErr :=
 /-- a fresh `Ombott()` -/
 def AppState.init : AppState := { slots := Slots.fresh, shared := sharedInit }
 
+/-- a fresh `Ombott(config)` whose configuration replaces `errors_map` (entries: class, status
+code, status line, body) -/
+def AppState.initWith (m : List (String × Nat × Str × Str)) : AppState :=
+  { slots := Slots.fresh,
+    shared := m.map fun (cls, code, line, body) =>
+      { cls := cls, resp := { code := code, line := line, headers := [], cookies := [] }, body := body, tb := [] } }
+
 /-- a request of a history: the WSGI-level description plus the class of the request error that
 reading the body in the handler raises (`none`: the body is fine / not read) -/
 structure HReq where
@@ -158,13 +165,9 @@ def serve (app : App) (st : AppState) (hr : HReq) : AppState × Response :=
   let (req0, raised) := resolve st.shared hr
   let req := withProbe st.slots hr req0
   let res := wsgi app st.slots req
-  let shared' :=
-    match raised with
-    | some e =>
-      if handlerReached res req then
-        (if reachesExcept app && !hr.ctxKeeps then clearShared st.shared e else raiseShared st.shared e req.id)
-      else st.shared
-    | none => st.shared
+  -- `_raise` raises a per-request copy of the mapped template (`_copy_error`): the entries of
+  -- `errors_map` are never raised, handed to an error handler or given a traceback
+  let shared' := st.shared
   -- `raise SINGLETON` in application code: nothing resets the traceback before the raise, so it
   -- grows by this request's frames unless the object reaches the `except` clause of `_handle`
   let appTb' :=
